@@ -34,9 +34,9 @@ CLAIMED = {
  "C10": (GENERIC % "HashBidiMap and TreeBidiMap, all operations (Put/Get/GetKey/Remove/Clear/Size/Keys/Values): the two inner maps are mutual inverses up to the comparators' equivalences as a representation invariant; TreeBidiMap.Put is proved through intermediate-state lemmas.",
          NOTE % "nothing of the two maps.", "DESIGN.md §4 C10"),
  "C11": (GENERIC % "ToJSON/MarshalJSON and FromJSON/UnmarshalJSON of 17 containers (three lists, three sets, four stack/queue wrappers, ring, heap, priority queue, hash map, red-black tree, tree map, hash bidimap) against a ghost model of encoding/json (content of a byte string as a function of the slice; Marshal attaches it, Unmarshal reads it): ToJSON yields an array/object whose content is the abstract view, FromJSON of that content yields the same view — the round trip is the composition of the two postconditions.",
-         NOTE % "A-JSON (the assumed contract of encoding/json, incl. JSON-representable elements); LinkedHashMap (two known findings: outside the verified subset and genuinely defective); BTree JSON; AVLTree JSON is verified over the assumed Put contract; TreeBidiMap.ToJSON is verified, the content of its FromJSON is not claimed.", "DESIGN.md §4 C11/C12"),
+         NOTE % "A-JSON (the assumed contract of encoding/json, incl. JSON-representable elements); LinkedHashMap (two known findings: outside the verified subset and genuinely defective); BTree JSON; AVLTree JSON is verified over AVL Put (whose driver is verified in the thorough tier); TreeBidiMap.ToJSON is verified, the content of its FromJSON is not claimed.", "DESIGN.md §4 C11/C12"),
  "C12": (GENERIC % "FromJSON of the same 17 containers: on success the content is exactly what the document denotes (sets deduplicate, trees sort, ring keeps the last capacity-many values, heap order is restored, bidimap stays one-to-one) and the representation invariant holds (so every other contract applies afterwards, including after null, [] and {}); on error the abstract state is unchanged (atomicity).",
-         NOTE % "A-JSON; LinkedHashMap.FromJSON (known finding); BTree; AVLTree over the assumed Put contract; for TreeBidiMap.FromJSON soundness, atomicity and null are proved, the loaded content is not claimed.", "DESIGN.md §4 C11/C12"),
+         NOTE % "A-JSON; LinkedHashMap.FromJSON (known finding); BTree; AVLTree over AVL Put (driver verified in the thorough tier); for TreeBidiMap.FromJSON soundness, atomicity and null are proved, the loaded content is not claimed.", "DESIGN.md §4 C11/C12"),
  "C13": (GENERIC % "HashSet, LinkedHashSet and TreeSet Intersection/Union/Difference: exact membership, operands unchanged (frame), result freshly allocated with the operands' comparator; identical-operand case included.",
          NOTE % "none of the nine operations.", "DESIGN.md §4 C13"),
  "C14": (GENERIC % "Each (exact callback sequence through a ghost call log: the iterator's pairs at positions 0..n-1, in order, once each), Any/All/Find (exists / for-all / first match), Select (exactly the matching elements, original relative order via ghost position maps or ranks, same comparator) and Map on the three lists, TreeSet, LinkedHashSet, TreeMap, LinkedHashMap; Each/Any/All/Find on TreeBidiMap; receiver unchanged (frame) and result freshly allocated.",
